@@ -7,7 +7,7 @@ use rand::Rng;
 use serde_json::json;
 use std::path::Path;
 
-const POOL: [&str; 14] = ["t/a.txt", "t/b.txt", "t/c.bin", "t/d/e.txt", "t/d/f.bin", "t/d/g/h.txt", "t/x y.txt", "t/ü.dat", "t/d.txt", "t/d-old/z.txt", "t/d/g.txt", "t/lib/a", "t/lib-old/b", "u/n1.txt"];
+const POOL: [&str; 16] = ["t/old/a.pna", "t/old/a.part1.pna", "t/a.txt", "t/b.txt", "t/c.bin", "t/d/e.txt", "t/d/f.bin", "t/d/g/h.txt", "t/x y.txt", "t/ü.dat", "t/d.txt", "t/d-old/z.txt", "t/d/g.txt", "t/lib/a", "t/lib-old/b", "u/n1.txt"];
 
 fn body(content: &[u8]) -> String {
     hexw(crate::canon::digest(content).as_bytes())
@@ -134,6 +134,8 @@ pub fn history(ctx: &mut Ctx) {
             if op < 3 {
                 // ---- append new files (given explicitly, or a fresh directory with -r)
                 let mut newf = vec![];
+                // every third history appends a file whose NAME is that of the archive (or of its first part) in another directory
+                if case % 3 == 2 { for special in ["t/old/a.pna", "t/old/a.part1.pna"] { if let Some(i) = pool.iter().position(|f| *f == special) { let f = pool.remove(i); write(f, &mut rng, &mut clock); newf.push(f.to_string()); ctx.count("append:input-named-like-the-archive"); break; } } }
                 for _ in 0..rng.gen_range(1..3) { if pool.is_empty() { break; } let i = rng.gen_range(0..pool.len()); let f = pool.remove(i); write(f, &mut rng, &mut clock); newf.push(f.to_string()); }
                 if newf.is_empty() { continue; }
                 let targets_paths = portable_network_archive::verif::collect_items(&newf.iter().map(|f| root.join(f).to_string_lossy().to_string()).collect::<Vec<_>>(), false, false).unwrap();
@@ -150,6 +152,20 @@ pub fn history(ctx: &mut Ctx) {
                 for (i, f) in existing.iter().enumerate() { if (if forced_partial { i == 0 } else { rng.gen_bool(0.35) }) && root.join(f).exists() { write(f, &mut rng, &mut clock); } }
                 if !forced_partial && rng.gen_bool(0.4) && !pool.is_empty() { let i = rng.gen_range(0..pool.len()); let f = pool.remove(i); if f.starts_with("t/") { write(f, &mut rng, &mut clock); } }
                 if !forced_partial && rng.gen_bool(0.3) { if let Some(f) = existing.iter().find(|f| root.join(f).exists()) { let _ = std::fs::remove_file(root.join(f)); } }
+                // a rewrite that keeps the length and the modification time (an edit within the same second, `cp -p`, `touch -r`):
+                // without a time filter the path still has to end up with its CURRENT contents
+                if !forced_partial && rng.gen_bool(0.35) {
+                    if let Some(f) = existing.iter().find(|f| std::fs::metadata(root.join(f)).map(|m| m.len() > 0).unwrap_or(false)) {
+                        use std::os::unix::fs::MetadataExt;
+                        let p = root.join(f);
+                        let mt = std::fs::metadata(&p).unwrap().mtime();
+                        let mut c = std::fs::read(&p).unwrap();
+                        for b in c.iter_mut() { *b ^= 0x5a; }
+                        std::fs::write(&p, &c).unwrap();
+                        set_mtime(&p, mt);
+                        ctx.count("update:same-size-same-mtime-rewrite");
+                    }
+                }
                 let whole = !forced_partial && rng.gen_bool(0.6);
                 let given: Vec<String> = if whole { vec!["t".into()] } else { existing.iter().filter(|f| root.join(f).exists()).take(if forced_partial { 1 } else { 2 }).cloned().collect() };
                 if given.is_empty() { continue; }
